@@ -293,13 +293,15 @@ def countTotalC2c (t : Tol) (o : Oracle) (L T r : Rat) : Except Err Nat := do
   else if (T - 1) * (r - 1) < 0 then .error .value    -- ratios on opposite sides of 1 (repair)
   else oracleCount o (powCountOK t.cnt r T) "count<total_expansion+c2c_expansion"
 
+/-- `d_min`: the smaller of first and last cell size -/
+def dMin (T s : Rat) : Rat := if T > 1 then s else s * T
+
 /-- `get_count__total_expansion__start_size`: `ceil(L/d_min)` for `|T-1| < TOL`, else `int(brentq) + 1` -/
 def countTotalStart (t : Tol) (o : Oracle) (L T s : Rat) : Except Err Nat := do
   guardLen L
   guardSize s
   guardRatio T
-  let d := if T > 1 then s else s * T
-  if absR (T - 1) < TOL then oracleCount o (countOK t.cnt d 1 L) "count<total_expansion+start_size:uniform"
+  if absR (T - 1) < TOL then oracleCount o (countOK t.cnt (dMin T s) 1 L) "count<total_expansion+start_size:uniform"
   else if T < 0 then .error .unmodelled
   else oracleCount o (fun n => countTOK t L s T n o.w1 o.w2) "count<total_expansion+start_size"
 
